@@ -519,3 +519,30 @@ def norm(sig: dict) -> dict:
             return list(o)
         raise TypeError(type(o))
     return json.loads(json.dumps(sig, default=enc, sort_keys=True))
+
+
+def signal_from_json(j: dict) -> dict:
+    """inverse of `norm` (replay files / corpus / ledger)"""
+    sig = dict(j)
+    c = sig.get("command")
+    if c and "splice_insert" in c:
+        si = dict(c["splice_insert"])
+        si["components"] = [tuple(x) for x in si["components"]]
+        if si["break_duration"] is not None:
+            si["break_duration"] = tuple(si["break_duration"])
+        sig["command"] = {"splice_insert": si}
+    ds = []
+    for d in sig.get("descriptors", []):
+        d = list(d)
+        if d[0] == "seg":
+            s = dict(d[2])
+            u = s.get("upid", b"")
+            if isinstance(u, dict):
+                u = bytes.fromhex(u["hex"])
+            elif isinstance(u, str):
+                u = bytes.fromhex(u)
+            s["upid"] = u
+            d[2] = s
+        ds.append(tuple(d))
+    sig["descriptors"] = ds
+    return sig
